@@ -3,16 +3,17 @@
    limit 2: (a) one component of up to two live ranges anywhere, (b) two time-disjoint components (times 0..1 and
    2..3) of up to two live ranges each.  Every live range fits on its own (the caller evicts the others first). *)
 EXTENDS Integers, Sequences, FiniteSets, TLC
-CONSTANTS ResetScoreC
+CONSTANTS ResetScoreC, Quick
 VARIABLES inst, ci, base, maxu, best, result
 TT == 4
 LRs(lo, hi) == {lr \in [s : lo..hi, e : lo..hi, z : 1..2, sc : 1..2] : lr.s <= lr.e}
 CompsOver(lo, hi) == UNION {[1..n -> LRs(lo, hi)] : n \in 1..2}
+CompsOne(lo, hi) == [1..1 -> LRs(lo, hi)]
 CanFitAlone(cs, b) == \A c \in 1..Len(cs) : \A i \in 1..Len(cs[c]) :
                         \A t \in 0..TT - 1 : (cs[c][i].s <= t /\ t <= cs[c][i].e) => b[t] + cs[c][i].z <= 2
-Bases == [0..TT - 1 -> 0..1]
+Bases == {[t \in 0..TT - 1 |-> 0], [t \in 0..TT - 1 |-> 1], [t \in 0..TT - 1 |-> IF t < 2 THEN 1 ELSE 0]}
 MCInsts == { I \in ({[comps |-> <<c>>, base |-> b] : c \in CompsOver(0, TT - 1), b \in Bases}
-                  \cup {[comps |-> <<c1, c2>>, base |-> b] : c1 \in CompsOver(0, 1), c2 \in CompsOver(2, 3), b \in Bases}) :
+                  \cup {[comps |-> <<c1, c2>>, base |-> b] : c1 \in (IF Quick THEN CompsOne(0, 1) ELSE CompsOver(0, 1)), c2 \in CompsOver(2, 3), b \in Bases}) :
                CanFitAlone(I.comps, I.base) }
 INSTANCE FastStorage WITH T <- TT, Limit <- 2, ResetScore <- ResetScoreC, Insts <- MCInsts
 =============================================================================
